@@ -48,7 +48,6 @@ Definition bpop_frame (f : frame) : bool :=
     - a request is processed on a connection only while that connection is not blocked
       (excluded: class pipelined-behind-block - the server runs the rest of a read, and what
       was written while the connection was blocked, although the connection has just blocked);
-    - BLPOP/BRPOP are not sent inside MULTI (excluded: class blocking-in-exec);
     - QUIT is a disconnect; connection ids are fresh and never 0 (CONN_ID_COUNTER starts at 1
       and only grows; 0 is the id process_command_parts uses inside EXEC). *)
 Definition ok (st : sys) (e : event) : bool :=
@@ -57,7 +56,7 @@ Definition ok (st : sys) (e : event) : bool :=
   | EFrame now c f oms =>
       match zlookup c (s_conns s) with
       | None => false
-      | Some cn => negb (is_blocked b c) && negb (bpop_frame f && c_intx cn) && negb (is_quit f)
+      | Some cn => negb (is_blocked b c) && negb (is_quit f)
       end
   | EConnect c =>
       negb (c =? 0) && negb (is_blocked b c) && (match zlookup c (s_conns s) with None => true | Some _ => false end)
@@ -91,11 +90,9 @@ Definition blocked_registered (b : blocking) : Prop :=
 Definition agree (b : blocking) : Prop :=
   waiters_agree b /\ wakes_agree b /\ wakes_unique b /\ blocked_registered b.
 
-(** no blocking pop sits in a MULTI queue; no connection has the id 0 *)
-Definition queues_ok (s : server) : Prop :=
-  forall c cn, zlookup c (s_conns s) = Some cn -> forallb (fun p => negb (bpop_parts p)) (c_queue cn) = true.
+(** no connection has the id 0 (the id the queued commands of an EXEC run with) *)
 Definition inv (st : sys) : Prop :=
-  b_crashed (snd st) = true \/ (agree (snd st) /\ queues_ok (fst st) /\ zlookup 0 (s_conns (fst st)) = None).
+  b_crashed (snd st) = true \/ (agree (snd st) /\ zlookup 0 (s_conns (fst st)) = None).
 
 (** ---- what a step writes to the connections ---- *)
 (** [wrote b b' new]: the step appended the frames [new] (oldest first) *)
@@ -218,15 +215,14 @@ Definition w_disconnect : list event :=
 Definition w_behind : list event :=
   [EConnect 1; at0 1 [bs "BLPOP"; bs "q"; bs "0.3"] (Some 300); at0 1 [bs "BLPOP"; bs "r"; bs "0"] (Some 0);
    ETimeouts 300].
-(** blocking-in-exec: BLPOP inside MULTI registers a waiter for connection id 0; it is ahead of a
-    real client, takes the next push (put back for want of a connection 0) and the real client
-    stays blocked although its key holds an element *)
+(** blocking-in-exec (fixed d076b83): BLPOP inside MULTI used to register a waiter for connection
+    id 0 ahead of the real clients; now it answers nil in its slot and the real client is served *)
 Definition w_exec : list event :=
   [EConnect 1; EConnect 2; EConnect 3; at0 1 [bs "MULTI"] None; at0 1 [bs "BLPOP"; bs "q"; bs "0"] None;
    at0 1 [bs "EXEC"] None; at0 2 [bs "BLPOP"; bs "q"; bs "0"] (Some 0); at0 3 [bs "LPUSH"; bs "q"; bs "v"] None;
    EWakeups].
-(** wrongtype-at-wake: the key of a queued wake-up holds a string by the time the wake-up runs:
-    the error leaves the event loop *)
+(** wrongtype-at-wake (fixed e1d4020): the key of a queued wake-up holds a string by the time the
+    wake-up runs; the error used to leave the event loop, now the client is registered again *)
 Definition w_wrongtype : list event :=
   [EConnect 1; EConnect 2; at0 1 [bs "BLPOP"; bs "q"; bs "0"] (Some 0); at0 2 [bs "LPUSH"; bs "q"; bs "v"] None;
    at0 2 [bs "DEL"; bs "q"] None; at0 2 [bs "SET"; bs "q"; bs "x"] None; EWakeups].
